@@ -145,14 +145,28 @@ example : (Req.isPreflight { method := OPTIONS, hdrs := fun k =>
 /-- **C11 (translated handlers).** `handleNonCORS` and `handleCORSActual` — everything the middleware does to a request
 that is not a preflight — are translated from /repo's middleware.go into Lean on every run (Gen/Pipeline.lean); for every
 internal configuration, response headers already present, Origin value and method kind each translated function equals
-the hand-written model's.  An edit of one of these Go functions that changes its meaning, or leaves the translated
+the hand-written model's (and `handleCORSActual` writes no status).  An edit of one of these Go functions that changes its meaning, or leaves the translated
 subset of Go, breaks this obligation. -/
 theorem C11_handlers_translated (icfg : ICfg) (h : HdrMap) (origin : Bytes) (isOPTIONS : Bool) :
-    Gen.Pipeline.handleNonCORS icfg h isOPTIONS = Serve.handleNonCORS icfg h isOPTIONS ∧
-    Gen.Pipeline.handleCORSActual icfg h origin [origin] isOPTIONS =
-      Serve.handleCORSActual (Serve.modelDec icfg) icfg h origin isOPTIONS :=
+    Gen.GoSrc.handleNonCORS icfg h isOPTIONS = Serve.handleNonCORS icfg h isOPTIONS ∧
+    Gen.GoSrc.handleCORSActual icfg h origin [origin] isOPTIONS =
+      (Serve.handleCORSActual (Serve.modelDec icfg) icfg h origin isOPTIONS, none) :=
   Translated.handlers_eq icfg h origin isOPTIONS
 
 #print axioms C11_handlers_translated
+
+
+/-- **C11 (translated preflight handler).** `handleCORSPreflight` — the Vary step, the four steps in Fetch order, what is copied
+from the buffer and which status is written when a step fails (both debug modes), `maps.Copy`, the max-age header and the success
+status — is translated from /repo's middleware.go on every run (Gen/Pipeline.lean, calling the translated steps); for every internal
+configuration, response headers already present, request headers, Origin and ACRM values and debug mode it produces the header map and
+the status of the hand-written model.  It contains no call of the wrapped handler (the translator has no construct for one). -/
+theorem C11_preflight_translated (icfg : ICfg) (h reqHdrs : HdrMap) (origin acrm : Bytes) (debug : Bool) :
+    Gen.GoSrc.handleCORSPreflight icfg h reqHdrs origin [origin] acrm [acrm] debug =
+      ((Serve.handleCORSPreflight (Serve.modelDec icfg) icfg h reqHdrs origin acrm debug).hdrs,
+       (Serve.handleCORSPreflight (Serve.modelDec icfg) icfg h reqHdrs origin acrm debug).status) :=
+  Translated.handleCORSPreflight_eq icfg h reqHdrs origin acrm debug
+
+#print axioms C11_preflight_translated
 
 end Cors
